@@ -17,7 +17,7 @@ import itertools
 
 from ..core import Ctx, PropSpec, Unsupported
 from ..extract import where
-from ..harness import Harness
+from ..harness import Harness, cursor
 from ..interp import BytesObj, Raised
 from ..models import new_packet
 from ..xmlmodel import clark, make_elem, attach_nsmap
@@ -82,7 +82,7 @@ def binary_table(ctx: Ctx, h: Harness):
                 kind, got = h.outcome(src + ".parse_value(pkt)", ENC, pkt=pkt)
                 n_cases += 1
                 want = left_padded(bits_of(PATTERN)[off:off + size])
-                pos = pkt.attrs["raw_data"].attrs.get("pos")
+                pos = cursor(h, pkt.attrs["raw_data"])
                 ok = kind == "ok" and isinstance(got, bytes) and bytes(got) == want and getattr(got, "cls", "") == "BinaryParameter" \
                     and bytes(got.attrs.get("raw_value", b"?")) == want and pos == off + size
                 if not ok:
@@ -133,7 +133,7 @@ def string_table(ctx: Ctx, h: Harness):
                     try:
                         want = rawbuf.decode(enc)
                         ok = kind == "ok" and str(got) == want and got.attrs.get("raw_value") == rawbuf and type(got.attrs.get("raw_value")) is bytes \
-                            and pkt.attrs["raw_data"].attrs.get("pos") == off + nbits and getattr(got, "cls", "") == "StrParameter"
+                            and cursor(h, pkt.attrs["raw_data"]) == off + nbits and getattr(got, "cls", "") == "StrParameter"
                     except UnicodeDecodeError:
                         ok = kind == "raise"
                         want = "<undecodable>"
@@ -150,7 +150,7 @@ def string_table(ctx: Ctx, h: Harness):
                 rawbuf = right_padded(allbits[off:off + nbits])
                 idx = rawbuf.index(bytes.fromhex(term_hex))
                 want = rawbuf[:idx].decode(enc)
-                ok = kind == "ok" and str(got) == want and got.attrs.get("raw_value") == rawbuf and pkt.attrs["raw_data"].attrs.get("pos") == off + nbits
+                ok = kind == "ok" and str(got) == want and got.attrs.get("raw_value") == rawbuf and cursor(h, pkt.attrs["raw_data"]) == off + nbits
                 ctx.decide(ok, "R7.str", site, "", _why(kind, got, pkt, want, rawbuf, off + nbits), where=where(fi, fi.node))
             except Unsupported as e:
                 ctx.unknown("R7.str", site, str(e))
@@ -164,7 +164,7 @@ def string_table(ctx: Ctx, h: Harness):
             kind, got = h.outcome(f"StringDataEncoding(encoding={enc!r}, fixed_raw_length={8 * len(buf)}, termination_character={term_hex!r}).parse_value(pkt)",
                                   ENC, pkt=pkt)
             want_txt = body.decode(enc)
-            ok = kind == "ok" and str(got) == want_txt and got.attrs.get("raw_value") == buf and pkt.attrs["raw_data"].attrs.get("pos") == 8 * len(buf)
+            ok = kind == "ok" and str(got) == want_txt and got.attrs.get("raw_value") == buf and cursor(h, pkt.attrs["raw_data"]) == 8 * len(buf)
             ctx.decide(ok, "R7.str", site, "", _why(kind, got, pkt, want_txt, buf, 8 * len(buf)), where=where(fi, fi.node))
         except Unsupported as e:
             ctx.unknown("R7.str", site, str(e))
@@ -178,7 +178,7 @@ def string_table(ctx: Ctx, h: Harness):
             pkt = mk_packet(h, 0, {}, data)
             kind, got = h.outcome(f"StringDataEncoding(encoding='UTF-16', byte_order='leastSignificantByteFirst', fixed_raw_length={len(field)}, "
                                   f"leading_length_size=16).parse_value(pkt)", ENC, pkt=pkt)
-            ok = kind == "ok" and str(got) == "ABCDEF"[:nch] and pkt.attrs["raw_data"].attrs.get("pos") == len(field)
+            ok = kind == "ok" and str(got) == "ABCDEF"[:nch] and cursor(h, pkt.attrs["raw_data"]) == len(field)
             ctx.decide(ok, "R7.str", site, "", _why(kind, got, pkt, "ABCDEF"[:nch], right_padded(field), len(field)), where=where(fi, fi.node))
         except Unsupported as e:
             ctx.unknown("R7.str", site, str(e))
@@ -197,7 +197,7 @@ def string_table(ctx: Ctx, h: Harness):
             kind, got = h.outcome(f"StringDataEncoding(encoding='US-ASCII', fixed_raw_length={nbits}, leading_length_size={tagw}).parse_value(pkt)", ENC, pkt=pkt)
             rawbuf = right_padded(field)
             want = text.decode("ascii")
-            ok = kind == "ok" and str(got) == want and got.attrs.get("raw_value") == rawbuf and pkt.attrs["raw_data"].attrs.get("pos") == off + nbits
+            ok = kind == "ok" and str(got) == want and got.attrs.get("raw_value") == rawbuf and cursor(h, pkt.attrs["raw_data"]) == off + nbits
             ctx.decide(ok, "R7.str", site, "", _why(kind, got, pkt, want, rawbuf, off + nbits), where=where(fi2, fi2.node))
         except Unsupported as e:
             ctx.unknown("R7.str", site, str(e))
@@ -223,11 +223,31 @@ def string_table(ctx: Ctx, h: Harness):
             rawbuf = right_padded(field)
             try:
                 want = rawbuf.decode("ascii")
-                ok = kind == "ok" and str(got) == want and got.attrs.get("raw_value") == rawbuf and pkt.attrs["raw_data"].attrs.get("pos") == off + size
+                ok = kind == "ok" and str(got) == want and got.attrs.get("raw_value") == rawbuf and cursor(h, pkt.attrs["raw_data"]) == off + size
             except UnicodeDecodeError:
                 want = "<undecodable>"
-                ok = kind == "raise" or pkt.attrs["raw_data"].attrs.get("pos") == off + size
+                ok = kind == "raise" or cursor(h, pkt.attrs["raw_data"]) == off + size
             ctx.decide(ok, "R7.str", site, "", _why(kind, got, pkt, want, rawbuf, off + size), where=where(fi, fi.node))
+        except Unsupported as e:
+            ctx.unknown("R7.str", site, str(e))
+    # (d2) a leading size tag inside a buffer whose length comes from each of the three length specifications: the computed
+    # length is the whole raw buffer, tag included
+    field = format(16, "08b") + bits_of(b"ABC")
+    data2 = right_padded("101" + field + bits_of(b"Z") + "1")
+    tagged = {
+        "fixed": ("fixed_raw_length=32", {}),
+        "reference (calibrated)": ("dynamic_length_reference='N'", {"N": ("Float", 32.0, 3)}),
+        "reference (raw) with adjustment 8x": ("dynamic_length_reference='N', use_calibrated_value=False, length_linear_adjuster=lambda x: 8 * x", {"N": ("Float", 77.0, 4)}),
+        "lookup": (f"discrete_lookup_length=[{CMP}.DiscreteLookup([{CMP}.Comparison('1', 'M')], 32)]", {"M": ("Int", 1, None)}),
+    }
+    for lname, (args, items) in tagged.items():
+        site = f"{fi.key}::length::{lname} + leading size"
+        try:
+            pkt = mk_packet(h, 3, {k: h.val(kind, v, raw) for k, (kind, v, raw) in items.items()}, data2)
+            kind, got = h.outcome(f"StringDataEncoding(encoding='US-ASCII', {args}, leading_length_size=8).parse_value(pkt)", ENC, pkt=pkt)
+            rawbuf = right_padded(field)
+            ok = kind == "ok" and str(got) == "AB" and got.attrs.get("raw_value") == rawbuf and cursor(h, pkt.attrs["raw_data"]) == 3 + 32
+            ctx.decide(ok, "R7.str", site, "", _why(kind, got, pkt, "AB", rawbuf, 3 + 32), where=where(fi, fi.node))
         except Unsupported as e:
             ctx.unknown("R7.str", site, str(e))
 
@@ -282,7 +302,7 @@ def xml_lengths(ctx: Ctx):
                 size = 16
             else:
                 size = 8 * (4 if mode else 2) - 8
-            pos = pkt.attrs["raw_data"].attrs.get("pos")
+            pos = cursor(h, pkt.attrs["raw_data"])
             ctx.decide(kind == "ok" and pos == 1 + size, "R7.xml", site, f"{size} bits",
                        f"{cls} loaded from a document with {desc}: {'raises ' + str(got) if kind != 'ok' else 'consumed ' + str(pos - 1) + ' bits'}; "
                        f"the declared length is {size} bits")
